@@ -50,13 +50,13 @@ func (r *idxReader) Read(p []byte) (int, error) {
 func learnWords() {
 	wordsOnce.Do(func() {
 		var names []string
-		for i := 0; i < 1200; i++ {
+		for i := 0; i < 4000; i++ {
 			n, _ := namegen.RandomDirectoryName(&idxReader{uint32(i)})
 			names = append(names, n)
 		}
-		for p := 2; p < 600; p++ {
+		for p := 2; p < 2000; p++ {
 			ok := true
-			for i := 0; i < 500; i++ {
+			for i := 0; i < 1500; i++ {
 				if names[i] != names[i+p] {
 					ok = false
 					break
@@ -66,6 +66,9 @@ func learnWords() {
 				wordPeriod = p
 				break
 			}
+		}
+		if wordPeriod == 0 {
+			panic("c19: could not learn the length of namegen's word list")
 		}
 		seen := map[string]int{}
 		for i := 0; i < wordPeriod; i++ {
@@ -88,6 +91,14 @@ type scriptedRand struct {
 
 	lastClass string
 	sizeRetry int
+
+	// forceWord / forceExt: when >= 0, the first word-index / extension read is
+	// answered with this index without being a choice point (the sweep over
+	// every drawable name)
+	forceWord int
+	forceExt  int
+	wordReads int
+	extReads  int
 }
 
 // shiftRight shifts the big-endian number in p right by n bits.
@@ -189,6 +200,13 @@ func (s *scriptedRand) Read(p []byte) (int, error) {
 		}
 		s.log = append(s.log, fmt.Sprintf("size#%d", c))
 	case "index":
+		s.wordReads++
+		if s.forceWord >= 0 && s.wordReads == 1 {
+			s.lastWord = s.forceWord
+			putBE(p, uint64(s.forceWord))
+			s.log = append(s.log, fmt.Sprintf("word=%d(forced)", s.forceWord))
+			break
+		}
 		c := s.x.Choose(5, "word")
 		idx := s.nextWord
 		switch c {
@@ -205,11 +223,20 @@ func (s *scriptedRand) Read(p []byte) (int, error) {
 			idx = 1
 		case 4:
 			idx = dupWordIdx
+			if idx < 0 {
+				idx = wordPeriod - 1
+			}
 		}
 		s.lastWord = idx
 		putBE(p, uint64(idx))
 		s.log = append(s.log, fmt.Sprintf("word=%d", idx))
 	case "ext":
+		s.extReads++
+		if s.forceExt >= 0 && s.extReads == 1 {
+			putBE(p, uint64(s.forceExt))
+			s.log = append(s.log, fmt.Sprintf("ext=%d(forced)", s.forceExt))
+			break
+		}
 		// default: a non-empty extension (".txt"), so that duplicate detection
 		// has to look through the extension; alternatives: none, ".pdf"
 		opts := []uint64{1, 0, 2}
@@ -388,9 +415,13 @@ type c19Replay struct {
 // runGen runs one generator under scripted randomness inside sub-test t and
 // checks the description. Returns "" or a violation "sig :: detail".
 func runGen(t *testing.T, g genCfg, x *xplore.Ctx) (sig, detail string) {
+	return runGenForced(t, g, x, -1, -1)
+}
+
+func runGenForced(t *testing.T, g genCfg, x *xplore.Ctx, forceWord, forceExt int) (sig, detail string) {
 	s := store.New()
 	ls := lsOf(s)
-	rnd := &scriptedRand{x: x}
+	rnd := &scriptedRand{x: x, forceWord: forceWord, forceExt: forceExt}
 	pathRule, full := false, false
 	var de testutil.DirEntry
 	var err error
@@ -533,7 +564,7 @@ func TestC19(t *testing.T) {
 		os.Exit(replay(t, rp))
 	}
 	r := core.NewRun("C19", tier)
-	r.Rule("stateless DFS over the answers of the generators' random source: every Read is a choice point with a menu chosen by the calling site (coin: file/dir/finish/rejected value; size: near-max,1,2,3,0 (empty-file retry),all-ones (rejection retry); word index: next unused, same as previous (duplicate retry), 0, 1, a word occurring twice in the list; extension; content: counter pattern or zeros = equal CIDs); all sequences within the stated deviation bound from the default (file, near-max size, next unused word), horizon 600 reads; generators: UnixFSFile, UnixFSDirectory (default and custom child generator, with/without shard bit-width), GenerateDirectory[From] (sharded or not), BuildDirectory, WrapContent; oracle: description == independent read-back walk by entry name (+ path rule and the library's own CompareDirEntries(ToDirEntry) for the directory generators)")
+	r.Rule("stateless DFS over the answers of the generators' random source: every Read is a choice point with a menu chosen by the calling site (coin: file/dir/finish/rejected value; size: near-max,1,2,3,0 (empty-file retry),all-ones (rejection retry); word index: next unused, same as previous (duplicate retry), 0, 1, a word occurring twice in the list; extension; content: counter pattern or zeros = equal CIDs); plus a sweep drawing every word of the list and every extension once as the first name; all sequences within the stated deviation bound from the default (file, near-max size, next unused word), horizon 600 reads; generators: UnixFSFile, UnixFSDirectory (default and custom child generator, with/without shard bit-width), GenerateDirectory[From] (sharded or not), BuildDirectory, WrapContent; oracle: description == independent read-back walk by entry name (+ path rule and the library's own CompareDirEntries(ToDirEntry) for the directory generators)")
 	r.Assume("word list length and a duplicated word are learned through namegen's public API; target sizes 16*2^k so that the default size answer is accepted")
 	quick := tier == "quick"
 	cfgs := configs(quick)
@@ -615,6 +646,42 @@ func TestC19(t *testing.T) {
 		}()
 	}
 	wg.Wait()
+	// every drawable name once: each word of the list (and each extension) as
+	// the first name drawn, all other answers default
+	sweep := 0
+	for _, g := range []genCfg{{Gen: "GenerateDirectory", Size: 64}, {Gen: "GenerateDirectory", Size: 64, Sharded: true}, {Gen: "UnixFSDirectory", Size: 64}} {
+		for w := 0; w < wordPeriod+9; w++ {
+			fw, fe := w, -1
+			if w >= wordPeriod {
+				fw, fe = -1, w-wordPeriod
+			}
+			g, fw, fe := g, fw, fe
+			var sig, detail string
+			res := xplore.RunOne(nil, nil, 5*readHorizon, func(x *xplore.Ctx) string {
+				ok := t.Run("sweep", func(st *testing.T) {
+					defer func() {
+						if v := recover(); v != nil {
+							if _, isT := v.(xplore.Truncated); !isT {
+								sig, detail = "panic "+g.Gen, fmt.Sprint(v)
+							}
+						}
+					}()
+					sig, detail = runGenForced(st, g, x, fw, fe)
+				})
+				if !ok && sig == "" {
+					sig, detail = "require-failed "+g.Gen, "a require inside the generator failed"
+				}
+				return ""
+			})
+			_ = res
+			sweep++
+			if sig != "" {
+				r.Violate(sig+" name-sweep", fmt.Sprintf("%s first word index %d / extension index %d: %s", g, fw, fe, detail), nil)
+			}
+		}
+	}
+	r.Evaluations.Add(int64(sweep))
+	r.Set("name_sweep_executions", sweep)
 	sort.Slice(stats, func(i, j int) bool { return stats[i].Cfg < stats[j].Cfg })
 	r.Set("per_generator", stats)
 	r.Set("word_list_length", wordPeriod)
